@@ -331,7 +331,23 @@ def write_replay(prop, seed, kind, payload):
     return os.path.relpath(path, VERIF)
 
 
+def restore_generated():
+    """a self-test run against a scratch worktree leaves the generated Lean files describing that
+    worktree; put back what /repo says so that the working copy of /verif stays as committed"""
+    global REPO
+    if REPO == "/repo":
+        return
+    REPO = "/repo"
+    try:
+        with BuildLock():
+            regenerate_constants([])
+    except Exception:
+        pass
+
+
 def main():
+    import atexit
+    atexit.register(restore_generated)
     if len(sys.argv) < 3:
         print("usage: check <Cxx> <quick|thorough> | check <Cxx> --replay <file>")
         sys.exit(2)
